@@ -310,9 +310,12 @@ CLAIMED = {
         text='Two layers on the real source. Bytes: every ByteWriter.write_X / ByteReader.read_X of hail/utils/byte_reader.py is executed symbolically over a byte list: a write appends exactly calcsize(fmt) bytes (4/8/4/8, 1 for bool/byte), a read placed on that image returns the value and advances by the same width (struct.pack/unpack uninterpreted, inverse only for the SAME format). '
         'Tokens: writer contracts for tarray/tstruct/ttuple (loop invariants over 64-bit vectors: bit t of missing byte k <=> slot 8k+t missing, bits beyond the length 0, exactly ceil(n/8) bytes, after the int32 length and before the data; present slots in order at header+rank(i), each by its own codec, missing slots write nothing), tdict (int32 length + one required key/value struct per item in insertion order, no missing bytes), tstr (int32 = length of the UTF-8 encoding, not of the str), the five fixed-width primitives, tset/tinterval/tlocus (delegation to the array/struct representation), tndarray writer (int64 shape, then the elements in the order of np.nditer(order=F)), HailType._missing/_to_encoding/_from_encoding, lookup_bit; '
         'reader contracts take the identical writer postcondition as precondition and prove: every read meets a token of its kind, the cursor ends at the end of the written data, the decoded value is the original with None for missing slots (round-trip composition lemma per type constructor, for all values and lengths). '
+        'A struct value is a mapping whose own item order is arbitrary: the tstruct writer is proved to follow the TYPE\'s field order for every item order of the value. '
+        'tcall: the real _tcall._convert_to_encoding writes exactly one int32 with the phase flag in bit 0 and the ploidy in bits 1-2 for every ploidy 0, 1, 2 (allele bits and the sign fold for ploidy 0/1; the rest is C34), the reader takes exactly one int32. '
+        'Call sites: Backend.execute hands the engine\'s bytes of ANY length (zero included) whole to ir.typ._from_encoding and returns that value, None without decoding only for void; EncodedLiteral.encoded_value is the base64 text of exactly typ._to_encoding(value); an AST scan shows there is no third place where values cross to the engine. '
         'Engine side: the arms of EType.fromPythonTypeEncoding and the E-type files are compared as text with the layout proved (constructor, required flags, field order, arm order).',
         note=COMMON_NOTE + 'Assumed: struct.pack/unpack inverse for equal formats and in-range values; "=" is native byte order (little-endian host); utf-8 encode/decode inverse, length of the encoding uninterpreted; the element codec is abstracted to one ELEM token (induction hypothesis) and the structural induction over nested types, the token-to-bytes concatenation and the induction behind rank monotonicity are paper steps; equality up to the container class (frozenlist/frozendict/Struct), missing decodes as None; numpy nditer(order="F") is column-major order. '
-        'Undecided: tndarray reader and n-d round trip, the dead numeric fast path of tndarray (would write C-ordered arrays row-major if it were live), the Scala decoders themselves (text scan only), tcall is C34. Failing obligations are reported as violations only with an input replayed on the real classes over the real ByteReader/ByteWriter against a reference encoder written from the property statement.',
+        'Undecided: tndarray reader and n-d round trip, the dead numeric fast path of tndarray (would write C-ordered arrays row-major if it were live), the Scala decoders themselves (text scan only); for tcall the diploid pair index, the no-overflow side conditions, the agreement with the engine Call and the round trip are C34; the transport around the call sites (payload construction, base64, RPC) is uninterpreted. Failing obligations are reported as violations only with an input replayed on the real classes over the real ByteReader/ByteWriter against a reference encoder written from the property statement.',
         technique='loop-invariant and stream contracts on the real source (pyvc symbolic execution, bit-vector missing bytes, ghost token stream, reader-on-writer-postcondition composition) -> z3; AST/text scans for class representation facts and the Scala E-type table',
         design_ref='7/C33',
     ),
